@@ -361,3 +361,106 @@ class C12(Base):
         for _ in range(k):
             out.append(Case("o.p3.homogeneous", [rng.rat() for _ in range(3)] + [rng.rat_nz()], family="oracle"))
         return out
+
+
+def unit_quat_pivot(rng, k):
+    """exactly unit rational quaternion [s,x,y,z] whose largest component sits at position k and whose
+    smallest sits at the scalar slot (k != 0) -- drives the four matrix->quaternion branches"""
+    q = sorted(rng.unit_quat(), key=lambda t: abs(t))
+    small, mid1, mid2, big = q
+    if k == 0:
+        out = [big, small, mid1, mid2]
+    else:
+        out = [small, None, None, None]
+        rest = [mid1, mid2]
+        for i in (1, 2, 3):
+            out[i] = big if i == k else rest.pop()
+    return [c * rng.choice([1, -1]) for c in out]
+
+
+def quat_to_m3(q):
+    w, x, y, z = q
+    return [1 - 2 * y * y - 2 * z * z, 2 * x * y + 2 * z * w, 2 * x * z - 2 * y * w,
+            2 * x * y - 2 * z * w, 1 - 2 * x * x - 2 * z * z, 2 * y * z + 2 * x * w,
+            2 * x * z + 2 * y * w, 2 * y * z - 2 * x * w, 1 - 2 * x * x - 2 * y * y]
+
+
+_Q_ALG = ["q.new", "q.from_sv", "q.conjugate", "q.neg", "q.add", "q.sub", "q.mul_s", "q.div_s", "q.rem_s",
+          "q.mul", "q.mul_v", "q.dot", "q.magnitude2", "q.one", "q.zero", "q.invert", "q.rotate_vector",
+          "q.rotate_point", "q.sum_list", "q.sum_list_ref", "q.product_list", "q.product_list_ref", "q.distance2"]
+
+
+@prop("C04")
+class C04(Base):
+    title = "quaternions obey Hamilton's algebra; unit quaternions act as rotations"
+    design_ref = "§6 C04"
+    ops = _Q_ALG
+    oracle_ops = ["o.q.algebra", "o.q.invert", "o.q.rotate", "o.q.compose"]
+
+    def families(self, rng, tier):
+        out = []
+        reps = 10 if tier == "quick" else 300
+        for _ in range(reps):
+            p, q = rng.unit_quat(), rng.unit_quat()
+            v = rng.distinct(3)
+            out.append(Case("q.mul", p + q, family="unit"))
+            out.append(Case("q.mul", q + p, family="unit"))
+            out.append(Case("q.mul_v", p + v, family="unit"))
+            out.append(Case("q.rotate_vector", p + v, family="unit"))
+            out.append(Case("q.invert", p, family="unit"))
+            out.append(Case("q.invert", rng.distinct(4), family="distinct"))
+            out.append(Case("q.mul", rng.distinct(4) + rng.distinct(4), family="distinct"))
+        out.append(Case("q.invert", [F(0)] * 4, family="zero-quaternion"))
+        return out
+
+    def oracle_cases(self, rng, tier):
+        out = []
+        k = 40 if tier == "quick" else 2000
+        for _ in range(k):
+            out.append(Case("o.q.algebra", [rng.rat() for _ in range(13)], family="oracle"))
+            out.append(Case("o.q.invert", [rng.rat() for _ in range(4)], family="oracle"))
+            out.append(Case("o.q.rotate", [rng.rat() for _ in range(7)], family="oracle"))
+            out.append(Case("o.q.rotate", rng.unit_quat() + [rng.rat() for _ in range(3)], family="oracle-unit"))
+            out.append(Case("o.q.compose", rng.unit_quat() + rng.unit_quat() + [rng.rat() for _ in range(3)], family="oracle-unit"))
+        return out
+
+
+@prop("C05")
+class C05(Base):
+    title = "Quaternion, Basis3, Matrix3 and Matrix4 describe one and the same rotation"
+    design_ref = "§6 C05"
+    ops = ["q.to_m3", "q.to_m4", "q.to_basis3", "m3.to_quat", "b3.to_quat", "b3.to_m3", "b3.one", "b3.mul",
+           "b3.rotate_vector", "b3.rotate_point", "b3.invert", "b3.product_list", "b3.product_list_ref",
+           "q.mul_v", "q.mul"]
+    oracle_ops = ["o.q.same_rotation", "o.q.roundtrip"]
+
+    def families(self, rng, tier):
+        out = []
+        reps = 8 if tier == "quick" else 250
+        for _ in range(reps):
+            for k in range(4):
+                q = unit_quat_pivot(rng, k)
+                out.append(Case("m3.to_quat", quat_to_m3(q), family=f"branch-{k}"))
+                out.append(Case("b3.to_quat", q, family=f"branch-{k}"))
+                out.append(Case("q.to_m3", q, family="unit"))
+                out.append(Case("q.to_m4", q, family="unit"))
+            p, q = rng.unit_quat(), rng.unit_quat()
+            out.append(Case("b3.mul", p + q, family="unit"))
+            out.append(Case("b3.invert", p, family="unit"))
+            out.append(Case("b3.rotate_vector", p + rng.distinct(3), family="unit"))
+            # generic (non-rotation) matrices through every branch of the conversion
+            out.append(Case("m3.to_quat", rand_mat(rng, 3), family="generic-matrix"))
+        # singular Basis3 (zero quaternion gives the identity matrix; scaled quaternion can be singular)
+        out.append(Case("b3.invert", [F(0), F(1, 1), F(0), F(0)], family="edge"))
+        h = F(1, 2)
+        out.append(Case("m3.to_quat", quat_to_m3([h, h, h, h]), family="trace-zero-boundary"))
+        return out
+
+    def oracle_cases(self, rng, tier):
+        out = []
+        k = 30 if tier == "quick" else 1500
+        for _ in range(k):
+            out.append(Case("o.q.same_rotation", rng.unit_quat() + rng.unit_quat() + [rng.rat() for _ in range(3)], family="oracle-unit"))
+            for b in range(4):
+                out.append(Case("o.q.roundtrip", unit_quat_pivot(rng, b), family=f"oracle-branch-{b}"))
+        return out
